@@ -361,3 +361,118 @@ Proof.
     rewrite firstn_app_exact, skipn_app_exact by (unfold vals; rewrite map_length; lia).
     rewrite (proj1 (rlines_pend _ _)), (proj1 (rcurves_pend _ _)). exact Hpend.
 Qed.
+
+(* ---------------- hlineto / vlineto ---------------- *)
+
+Fixpoint lay_alt (chk : bool) (pre : list ecmd) : list enum :=
+  match pre with
+  | ELine dx dy :: t => (if chk then dx else dy) :: lay_alt (negb chk) t
+  | _ => []
+  end.
+
+(* every line of the run is axis-aligned, alternating; chk = true: horizontal first *)
+Fixpoint alt_ok (chk : bool) (pre : list ecmd) : bool :=
+  match pre with
+  | [] => true
+  | ELine dx dy :: t => is_zero (if chk then dy else dx) && alt_ok (negb chk) t
+  | _ => false
+  end.
+
+Lemma lay_alt_length : forall pre chk, alt_ok chk pre = true -> length (lay_alt chk pre) = length pre.
+Proof.
+  induction pre as [|c t IH]; intros chk H; [reflexivity|].
+  destruct c; try discriminate. cbn [alt_ok] in H. apply andb_true_iff in H.
+  cbn [lay_alt length]. rewrite IH by tauto. reflexivity.
+Qed.
+
+Lemma lay_alt_wf : forall pre chk, run_wf pre -> Forall wf_enum (lay_alt chk pre).
+Proof.
+  induction pre as [|c t IH]; intros chk H; [constructor|]. inversion H; subst.
+  destruct c; try constructor. 
+  - cbn [cmd_enums] in H2. inversion H2; subst. inversion H5; subst. destruct chk; assumption.
+  - apply IH. assumption.
+Qed.
+
+Lemma altlines_adv : forall pre chk st,
+  alt_ok chk pre = true ->
+  pst_of (altlines chk st (vals (lay_alt chk pre))) = adv (pst_of st) pre.
+Proof.
+  induction pre as [|c t IH]; intros chk st H; [reflexivity|].
+  destruct c; try discriminate. cbn [alt_ok] in H. apply andb_true_iff in H. destruct H as [Hz Ht].
+  cbn [lay_alt vals map altlines].
+  change (map ev (lay_alt (negb chk) t)) with (vals (lay_alt (negb chk) t)).
+  rewrite IH by assumption. unfold is_zero in Hz. apply Z.eqb_eq in Hz.
+  destruct chk; rewrite pst_of_line; cbn [adv fold_left app_draw]; rewrite Hz; reflexivity.
+Qed.
+
+Lemma altlines_pend h st a : pend (altlines h st a) = pend st.
+Proof. pose proof (keep_altlines a h st) as K. unfold keep in K. tauto. Qed.
+
+Lemma altline_edge_ok cs0 pre rest chk :
+  run_wf cs0 -> cs0 = pre ++ rest -> alt_ok chk pre = true -> (1 <= length pre)%nat ->
+  (length pre <= t2_max_stack)%nat ->
+  edge_ok cs0 (mkEdge (lay_alt chk pre) (if chk then OHlineto else OVlineto) (length pre)).
+Proof.
+  intros Hwf H0 Hok Hk Hfit. unfold edge_ok. cbn [e_to e_args e_op].
+  assert (Hlen : length (lay_alt chk pre) = length pre) by (apply lay_alt_length; assumption).
+  assert (Hf : firstn (length pre) cs0 = pre) by (rewrite H0; apply firstn_pre).
+  split. { rewrite H0, app_length. lia. }
+  split. { apply lay_alt_wf. rewrite H0 in Hwf. apply run_wf_app in Hwf. tauto. }
+  split; [lia|].
+  intros st p Hat Hm.
+  destruct Hat as (Hp & Hs & Hpend).
+  assert (Hn : length (args (tick st)) = length pre).
+  { unfold args. cbn [stk tick]. rewrite Hs, !rev_length. unfold vals. rewrite map_length. exact Hlen. }
+  rewrite Hf.
+  destruct chk; cbn [do_op]; rewrite Hn.
+  - apply drawing_spec with (s := rev (vals (lay_alt true pre)));
+      try (repeat split; assumption); try exact Hm; try (apply Nat.leb_le; lia);
+      rewrite rev_involutive.
+    + rewrite altlines_adv by assumption. rewrite pst_of_tick, Hp. reflexivity.
+    + rewrite altlines_pend. exact Hpend.
+  - apply drawing_spec with (s := rev (vals (lay_alt false pre)));
+      try (repeat split; assumption); try exact Hm; try (apply Nat.leb_le; lia);
+      rewrite rev_involutive.
+    + rewrite altlines_adv by assumption. rewrite pst_of_tick, Hp. reflexivity.
+    + rewrite altlines_pend. exact Hpend.
+Qed.
+
+Lemma alt_loop_spec : forall cs chk code pos,
+  exists pre rest, cs = pre ++ rest /\ alt_ok chk pre = true /\
+    alt_loop chk cs code pos = (code ++ lay_alt chk pre, (pos + length pre)%nat) /\
+    (pre <> [] -> (length code + length pre <= t2_max_stack)%nat).
+Proof.
+  induction cs as [|c t IH]; intros chk code pos.
+  - exists [], []. cbn. rewrite app_nil_r, Nat.add_0_r. repeat split; congruence.
+  - destruct c as [a b|dx dy|a0 a1 a2 a3 a4 a5|k bs];
+      try (match goal with |- exists pre rest, ?c :: t = _ /\ _ => exists [], (c :: t) end;
+           cbn; rewrite app_nil_r, Nat.add_0_r; repeat split; congruence).
+    cbn [alt_loop]. destruct (fits code 1) eqn:F;
+      [|exists [], (ELine dx dy :: t); cbn; rewrite app_nil_r, Nat.add_0_r; repeat split; congruence].
+    destruct (negb (is_zero (if chk then dy else dx))) eqn:Z;
+      [exists [], (ELine dx dy :: t); cbn; rewrite app_nil_r, Nat.add_0_r; repeat split; congruence|].
+    apply negb_false_iff in Z.
+    destruct (IH (negb chk) (code ++ [if chk then dx else dy]) (S pos)) as (pre & rest & H0 & Hok & Hr & Hl).
+    exists (ELine dx dy :: pre), rest. repeat split.
+    + cbn [app]. rewrite H0. reflexivity.
+    + cbn [alt_ok]. rewrite Z, Hok. reflexivity.
+    + rewrite Hr. cbn [lay_alt length]. rewrite <- app_assoc. cbn [app]. f_equal. lia.
+    + intros _. apply fits_le in F. destruct pre as [|q pre'].
+      * cbn [length]. lia.
+      * specialize (Hl ltac:(discriminate)). rewrite app_length in Hl. cbn [length] in *. lia.
+Qed.
+
+Lemma alt_edge_ok cs0 chk :
+  run_wf cs0 ->
+  Forall (edge_ok cs0) (alt_edge chk (if chk then OHlineto else OVlineto) cs0).
+Proof.
+  intros Hwf. unfold alt_edge.
+  destruct (alt_loop_spec cs0 chk [] 0) as (pre & rest & H0 & Hok & Hr & Hl).
+  rewrite Hr. cbn [app Nat.add].
+  destruct (lay_alt chk pre) as [|e l] eqn:E; [constructor|].
+  constructor; [|constructor]. rewrite <- E.
+  assert (Hne : pre <> []) by (intros ->; discriminate).
+  specialize (Hl Hne). cbn in Hl.
+  apply altline_edge_ok with (rest := rest); auto.
+  destruct pre; [congruence|cbn; lia].
+Qed.
